@@ -17,7 +17,9 @@ for d in sorted(os.listdir('/verif/seeded')):
     files = ','.join(os.path.basename(x) for x in m.get('files_changed', []))
     if m.get('status', '').startswith('superseded'):
         others = sorted(p for (s, p), (rc, _) in rows.items() if s == d and rc == 'exit=1')
-        lines.append(f'| {d} | {files}: {title} | superseded (suite fails after fix 9b619bb) | caught by {", ".join(others) or "-"} before that |')
+        why = m['status'].split(':',1)[1].strip()
+        why = (why[:150] + '…') if len(why) > 150 else why
+        lines.append(f'| {d} | {files}: {title} | superseded | {why} (caught by {", ".join(others) or "its own check"} before) |')
         continue
     rc, obl = rows.get((d, prop), ('not run', ''))
     first = obl.split('|')[0]
